@@ -343,36 +343,49 @@ def rule_streams(ctx, rid="R19.5"):
 
 
 def loader_funcs(prog):
-    """Functions that parse JSON for the CLI: _Outputter.load and the stdin loader nested in run."""
+    """Decoding/parsing sites of the CLI's loaders (_Outputter.load and the stdin loader nested in run):
+    (function, call, exceptions it raises on a file that is not UTF-8 text / not JSON)."""
     calls = calls_of(prog)
     out = []
     for f in prog.funcs.values():
         if f.mod.name != "cli":
             continue
+        # names bound to text streams: open(...) without a binary mode, the stdin parameter
+        streams = set()
+        for n in walk_body(f):
+            if isinstance(n, ast.Assign) and isinstance(n.value, ast.Call) and norm(n.value.func) == "open" and isinstance(n.targets[0], ast.Name):
+                mode = n.value.args[1] if len(n.value.args) > 1 else next((k.value for k in n.value.keywords if k.arg == "mode"), None)
+                if not (isinstance(mode, ast.Constant) and "b" in str(mode.value)):
+                    streams.add(n.targets[0].id)
+            if isinstance(n, ast.withitem) and isinstance(n.context_expr, ast.Call) and norm(n.context_expr.func) == "open" and isinstance(n.optional_vars, ast.Name):
+                streams.add(n.optional_vars.id)
+        streams |= {"stdin"}
         for n in walk_body(f):
             if isinstance(n, ast.Call):
                 for t in calls.callee(f, n):
-                    if t.kind == "ext" and t.name in ("json.load", "json.loads"):
-                        out.append((f, n))
+                    if t.kind == "ext" and t.name == "json.load":
+                        out.append((f, n, ["JSONDecodeError", "UnicodeDecodeError"]))
+                    elif t.kind == "ext" and t.name == "json.loads":
+                        out.append((f, n, ["JSONDecodeError"]))
+                if isinstance(n.func, ast.Attribute) and n.func.attr in ("read", "readlines", "readline") and isinstance(n.func.value, ast.Name) \
+                        and n.func.value.id in streams:
+                    out.append((f, n, ["UnicodeDecodeError"]))
     return out
-
-
-JSON_LOAD_RAISES = ["JSONDecodeError", "UnicodeDecodeError"]
 
 
 def rule_parse_failures(ctx, rid="R19.7"):
     prog = ctx.prog
     calls = calls_of(prog)
     r = ctx.rule(rid, "every way json.load can fail on a text stream becomes one parsing diagnostic and _CannotLoadFile", floor=2)
-    for f, call in loader_funcs(prog):
+    for f, call, raises in loader_funcs(prog):
         cfg = cfg_of(f)
         n = [x for x in cfg.live if any(c is call for (c, _t) in calls_at(calls, f, x))][0]
         trys = [t for (t, wh) in n.trys if wh == "body"]
-        for exc in JSON_LOAD_RAISES:
+        for exc in raises:
             hs = [h for t in trys for h in t.handlers if handler_names(h) is None or any(covers(x, exc) for x in handler_names(h))]
             if not hs:
                 r.fail("%s|uncaught|%s" % (f.qual, exc), site(f, call),
-                       "json.load can raise %s (file/stdin that is not UTF-8 text or not JSON) and no handler here covers it: the run ends with a traceback and the remaining instances are never looked at" % exc)
+                       "`%s` can raise %s (file/stdin that is not UTF-8 text or not JSON) and no handler here covers it: the run ends with a traceback and the remaining instances are never looked at" % (norm(call)[:40], exc))
                 continue
             h = hs[0]
             hn = [x for x in cfg.live if x.kind == "except" and x.ast is h][0]
@@ -489,3 +502,6 @@ def run(ctx):
     rule_options(ctx)
     rule_parse_failures(ctx)
     rule_validator_built_once(ctx)
+    # R19.9: an explicit --validator always wins (the CLI half of C20's R20.3)
+    from .c20 import rule_explicit_class_wins
+    rule_explicit_class_wins(ctx, "R19.9", only=("cli.run",))
